@@ -172,6 +172,70 @@ def ob_install_many():
     return h
 
 
+def ob_install_generators():
+    """the real Backend.generate_{header,man,data,subdir}_install build both the real destination (what meson install uses) and its symbolic name
+    (what intro-install_plan.json shows): resolving the placeholders of the name must give the real destination, for every spelling of the directories"""
+    def h():
+        prefix = '/usr'
+        roots = {'{prefix}': prefix, '{includedir}': 'include', '{mandir}': 'share/man', '{datadir}': 'share'}
+        be = object.__new__(BK.Backend)
+        be.environment = types.SimpleNamespace(get_build_dir=lambda: '/bld', get_source_dir=lambda: '/src', get_prefix=lambda: prefix,
+                                               get_includedir=lambda: 'include', get_mandir=lambda: 'share/man')
+        kind = choose(4, 'kind')
+        d = types.SimpleNamespace(headers=[], man=[], data=[], install_subdirs=[], targets=[], symlinks=[], emptydir=[], build_dir='/bld', prefix=prefix)
+        DA = 'ab/'
+        if kind == 0:
+            how = choose(3, 'how')
+            custom = sym_str(1 + choose(2, 'cl'), 'custom', alphabet=DA) if how == 2 else None
+            sub = sym_str(1 + choose(2, 'sl'), 'subdir', alphabet=DA) if how == 1 else None
+            hd = types.SimpleNamespace(get_custom_install_dir=lambda: custom, get_install_subdir=lambda: sub, get_sources=lambda: [ML.File(False, 'inc', 'h.h')],
+                                       get_custom_install_mode=lambda: None, subproject='', install_tag='devel', follow_symlinks=None)
+            be.build = types.SimpleNamespace(get_headers=lambda: [hd])
+            be.generate_header_install(d); got = d.headers; key = 'headers'
+        elif kind == 1:
+            loc = [None, 'fr'][choose(2, 'locale')]
+            custom = sym_str(1 + choose(2, 'cl'), 'custom', alphabet=DA) if choose(2, 'hascustom') else None
+            src = ML.File(False, 'man', 'foo.fr.1' if loc else 'foo.1')
+            mn = types.SimpleNamespace(get_sources=lambda: [src], get_custom_install_dir=lambda: custom, locale=loc, get_custom_install_mode=lambda: None, subproject='', install_tag=None)
+            be.build = types.SimpleNamespace(get_man=lambda: [mn])
+            be.generate_man_install(d); got = d.man; key = 'man'
+        elif kind == 2:
+            tail = sym_str(1 + choose(2, 'dl'), 'dir', alphabet=DA)
+            named = choose(2, 'placeholder')
+            idir = ('share/' + tail) if named else tail
+            iname = ('{datadir}/' + tail) if named else tail
+            ren = sym_str(1 + choose(2, 'rl'), 'rename', alphabet=DA)
+            de = B.Data([ML.File(False, 'data', 'f.txt')], idir, iname, None, '', rename=[ren], install_tag='t')
+            be.build = types.SimpleNamespace(get_data=lambda: [de])
+            be.generate_data_install(d); got = d.data; key = 'data'
+        else:
+            isub = sym_str(1 + choose(3, 'il'), 'installable_subdir', alphabet=DA)
+            idir = sym_str(1 + choose(2, 'dl'), 'dir', alphabet=DA)
+            strip = choose(2, 'strip_directory') == 1
+            sd = types.SimpleNamespace(from_source_dir=True, source_subdir='sub', installable_subdir=isub, install_dir=idir, install_dir_name=idir, strip_directory=strip,
+                                       install_tag='t', install_mode=None, exclude=(set(), set()), subproject='', follow_symlinks=None)
+            be.build = types.SimpleNamespace(get_install_subdirs=lambda: [sd])
+            be.generate_subdir_install(d); got = d.install_subdirs; key = 'install_subdirs'
+        check(len(got) == 1, 'one install entry per declared file / directory')
+        if len(got) != 1: return
+        plan = MT.list_install_plan(None, None, types.SimpleNamespace(create_install_data=lambda: d))
+        ents = [e for sect, dd in plan.items() for p, e in dd.items()]
+        check(len(ents) == 1, 'listed once in the install plan')
+        name = ents[0]['destination']
+        for ph, val in roots.items():
+            if isinstance(name, str) and name.startswith(ph): name = val + name[len(ph):]
+            elif not isinstance(name, str) and len(name) >= len(ph) and decide(bt_any(name.startswith(ph))): name = val + name[len(ph):]
+        real = got[0].install_path
+        if key == 'headers': real = real + '/' + 'h.h' if not decide(bt_any(real.endswith('/'))) else real + 'h.h'
+        a = MI.get_destdir_path('', prefix, name); b = MI.get_destdir_path('', prefix, real)
+        # compare up to duplicate slashes (os.path.join keeps what it is given)
+        na = [x for x in a.split('/') if len(x)]; nb_ = [x for x in b.split('/') if len(x)]
+        check(len(na) == len(nb_) and all(len(x) == len(y) and decide(bt_any(eq(x, y))) for x, y in zip(na, nb_)),
+              'the install-plan destination, placeholders resolved, is the directory / file meson install writes')
+        cover(key)
+    return h
+
+
 def ob_options():
     def h():
         st = O.OptionStore(False)
@@ -206,5 +270,7 @@ def obligations(tier):
     out.append(Obligation('install-plan', ob_install(), dict(kinds='data | man | headers', install_path='1-2 chars over /ab', tag='None|runtime|devel|""', subproject='""|sub'),
                           labels=('data', 'man', 'headers')))
     out.append(Obligation('install-plan/interleaved', ob_install_many(), dict(entries=3, sections='data | configure | python in any order'), labels=('done',)))
+    out.append(Obligation('install-generators', ob_install_generators(), dict(kinds='headers | man | data | install_subdir', directories='1-3 chars over ab/ (trailing slash, absolute, nested)',
+                          placeholders='{prefix} {includedir} {mandir} {datadir}', strip_directory='both'), labels=('headers', 'man', 'data', 'install_subdirs'), max_paths=3000000))
     out.append(Obligation('buildoptions', ob_options(), dict(options='project int/bool, system combo, builtin bool; symbolic values'), labels=('done',)))
     return out
